@@ -132,6 +132,21 @@ func c06Enumerate(tier string, yield func(any)) {
 			yield(&c06Case{Kind: "list", List: []int{a, b}})
 		}
 	}
+	// every ordered pair of different kinds given with the same raw body (!null, !empty, 4 octets) and the same critical flag,
+	// and every kind followed by its two successors that way
+	for a := 0; a < nk; a++ {
+		for b := 0; b < nk; b++ {
+			if a == b {
+				continue
+			}
+			for cr := 0; cr < 3; cr++ {
+				for _, body := range []int{0, 1, 2} {
+					yield(&c06Case{Kind: "rawpair", List: []int{a, b}, Crit: cr, Body: body})
+				}
+			}
+		}
+		yield(&c06Case{Kind: "rawpair", List: []int{a, (a + 1) % nk, (a + 2) % nk}, Crit: 1, Body: 2})
+	}
 	// the effective list under a profile: profile lists <=2 x certificate lists <=3 over repeated types
 	{
 		na := len(c06MergeAlphabet())
@@ -207,6 +222,13 @@ func c06Exec(x *engine.Ctx, cc any) {
 			l = append(l, c06Ext(ix/3, ix%3, c06NBodies()-1))
 		}
 		c06Run(x, l, fmt.Sprintf("list %v", c.List), 0)
+	case "rawpair":
+		// two (three) extensions of different kinds that share the raw body and the critical flag
+		l := []refcfg.Ext{c06Ext(c.List[0], c.Crit, c.Body), c06Ext(c.List[1], c.Crit, c.Body)}
+		if len(c.List) > 2 {
+			l = append(l, c06Ext(c.List[2], c.Crit, c.Body))
+		}
+		c06Run(x, l, fmt.Sprintf("rawpair %v crit=%d body=%d", c.List, c.Crit, c.Body), 0)
 	case "rot":
 		var base []refcfg.Ext
 		for k := range refcfg.AllKinds {
@@ -480,7 +502,7 @@ func init() {
 	register(&engine.Check{
 		ID:          "C06",
 		Level:       "exploration",
-		Rule:        "11 extension kinds x critical {omitted,false,true} x body {raw !null, raw !empty, raw !binary of 1,2,3,127,128,767,768,769,1024,65536 bytes, simplest content}; every list of length 0 and 2 over kind x critical (33^2); all 12 rotations of a list holding each kind once plus a repeated type (each also edited into an entity that was generated with the reverse order, so that it is re-issued through change detection), each also with a .version manipulation of 0..4 (and every kind alone with each), since the list does not depend on the version number written; the effective list under a profile: every profile list of length 1..2 over 4 entries (two SAN forms, EKU, a custom extension with the SAN OID) x override x optional against every certificate list of length 0..3 over the same entries (quick thins the largest block to a quarter); every !binary payload length 1..4096 (quick) / 1..65536 (thorough) at ParseConfig->Builder->Compile level and 1..1100 / 1..4096 through whole certificates; unique ids, signature value, public-key bits, authority key id and addProfessionInfo at the boundary lengths. Oracle: same list, order, OIDs, critical exactly as configured (absent in DER when false/omitted), raw bodies byte-identical. non-trivial = distinct case (payload lengths distinct by construction); the byte-valued fields and a raw extension body also with the base64 text wrapped into lines of 64 or 76 characters (10 lengths)",
+		Rule:        "11 extension kinds x critical {omitted,false,true} x body {raw !null, raw !empty, raw !binary of 1,2,3,127,128,767,768,769,1024,65536 bytes, simplest content}; every list of length 0 and 2 over kind x critical (33^2); all 12 rotations of a list holding each kind once plus a repeated type (each also edited into an entity that was generated with the reverse order, so that it is re-issued through change detection), each also with a .version manipulation of 0..4 (and every kind alone with each), since the list does not depend on the version number written; the effective list under a profile: every profile list of length 1..2 over 4 entries (two SAN forms, EKU, a custom extension with the SAN OID) x override x optional against every certificate list of length 0..3 over the same entries (quick thins the largest block to a quarter); every !binary payload length 1..4096 (quick) / 1..65536 (thorough) at ParseConfig->Builder->Compile level and 1..1100 / 1..4096 through whole certificates; unique ids, signature value, public-key bits, authority key id and addProfessionInfo at the boundary lengths. Oracle: same list, order, OIDs, critical exactly as configured (absent in DER when false/omitted), raw bodies byte-identical. non-trivial = distinct case (payload lengths distinct by construction); the byte-valued fields and a raw extension body also with the base64 text wrapped into lines of 64 or 76 characters (10 lengths); every ordered pair of different kinds carrying the same raw body and critical flag",
 		Bound:       map[string]string{"list length": "0..2 exhaustive, 12 by rotation", "payload length": "every length up to 4096 / 65536"},
 		Assumptions: []string{"payload contents are one deterministic pattern per length", "subjectKeyIdentifier content !binary may or may not be wrapped in an OCTET STRING (documentation and code disagree)"},
 		Budget:      budgets(quickBudget, thoroughBudget),
